@@ -697,6 +697,20 @@ loop:
 					continue
 				}
 
+				if fr.Type() == FramePriority {
+					// PRIORITY may arrive for a stream in any state, idle and
+					// closed ones included (RFC 7540 5.1, 6.3), and nothing in
+					// it is used here. It neither opens the stream nor makes its
+					// identifier an error, so no stream is created for it: one
+					// that was would sit in the table, with a request context of
+					// its own, for the life of the connection.
+					if pry, ok := fr.Body().(*Priority); ok && pry.Stream() == fr.Stream() {
+						sc.writeGoAway(fr.Stream(), ProtocolError, "stream that depends on itself")
+					}
+
+					continue
+				}
+
 				if _, ok := closedStrms[fr.Stream()]; ok {
 					// A WINDOW_UPDATE, RST_STREAM or PRIORITY frame may
 					// legitimately arrive shortly after a stream is closed,
